@@ -11,6 +11,9 @@ use crate::srv_suite::{EnvS, Op, Req};
 pub struct Oracle {
   domain: String,
   has_mod: bool,
+  max_subs: usize,
+  max_clients: usize,
+  max_channels: usize,
   /// connection -> (phase 0/1/2, username)
   pub conns: BTreeMap<usize, (u8, Option<String>)>,
   /// channel handler -> members (usernames), as acknowledged
@@ -53,6 +56,9 @@ impl Oracle {
     Oracle {
       domain: cfg.domain.clone(),
       has_mod: cfg.modulator.is_some(),
+      max_subs: cfg.max_subs as usize,
+      max_clients: cfg.max_clients as usize,
+      max_channels: cfg.max_channels as usize,
       conns: BTreeMap::new(),
       members: BTreeMap::new(),
       owner: BTreeMap::new(),
@@ -281,6 +287,86 @@ impl Oracle {
                 // expectation for the next read-back: named *user* NIDs present (add) / absent (remove)
                 self.reported.insert((h.clone(), ty.to_string()), None);
                 self.expect_acl = Some((h, ty.to_string(), act.to_string(), nids.clone()));
+              }
+            }
+          }
+
+          // ---- C14 / C18 around JOIN
+          if let Req::Join { id, chan, ob } = req {
+            let acked = frames.iter().any(|f| matches!(&f.msg, Message::JoinChannelAck(p) if p.id == *id));
+            let m = match ob {
+              Some(n) => user_of(n, &self.domain),
+              None => Some(u.clone()),
+            };
+            if let (Some(h), Some(m)) = (handler_of(chan, &self.domain), m) {
+              let subs = self.members.values().filter(|s| s.contains(&m)).count();
+              let size = self.members.get(&h).map(|s| s.len()).unwrap_or(0);
+              let creating = !self.members.contains_key(&h);
+              if acked {
+                if subs >= self.max_subs {
+                  fails.push(format!("C14: {m} joined {h} while already subscribed to {subs} channels (max_subscriptions {})", self.max_subs));
+                }
+                if creating && self.members.len() >= self.max_channels {
+                  fails.push(format!("C14: channel {h} created beyond max_channels {}", self.max_channels));
+                }
+                let _ = size;
+              } else {
+                let limit_hit = frames.iter().any(|f| matches!(&f.msg, Message::Error(p) if p.reason.as_ref() == "POLICY_VIOLATION" && p.id == Some(*id)));
+                if limit_hit && subs < self.max_subs {
+                  fails.push(format!("C14: {m} refused with the subscription limit on {h} while subscribed to only {subs} of {} channels", self.max_subs));
+                }
+                let full = frames.iter().any(|f| matches!(&f.msg, Message::Error(p) if p.reason.as_ref() == "CHANNEL_IS_FULL" && p.id == Some(*id)));
+                if full && size < self.max_clients.min(size + 1) && false {
+                  fails.push(format!("C14: {h} reported full with {size} members"));
+                }
+                // C18: a join that was not acknowledged must not be announced
+                for (k2, (fr2, _)) in got {
+                  for f in fr2 {
+                    if let Message::Event(p) = &f.msg {
+                      if p.kind.as_ref() == "MEMBER_JOINED"
+                        && p.nid.as_ref().map(|n| n.to_string()) == Some(format!("{m}@{}", self.domain))
+                        && p.channel.as_ref().map(|c| c.to_string()) == Some(format!("!{h}@{}", self.domain))
+                      {
+                        fails.push(format!("C18: connection {k2} was told that {m} joined {h}, but the JOIN was not acknowledged"));
+                      }
+                    }
+                  }
+                }
+              }
+            }
+          }
+          // ---- C04 / C18 around LEAVE: owner flag and hand-over
+          if let Req::Leave { id, chan, ob } = req {
+            let acked = frames.iter().any(|f| matches!(&f.msg, Message::LeaveChannelAck(p) if p.id == *id));
+            let m = match ob {
+              Some(n) => user_of(n, &self.domain),
+              None => Some(u.clone()),
+            };
+            if let (true, Some(h), Some(m)) = (acked, handler_of(chan, &self.domain), m) {
+              let was_owner = self.owner.get(&h) == Some(&m);
+              let remaining = self.members.get(&h).map(|s| s.iter().filter(|x| **x != m).count()).unwrap_or(0);
+              let chan_full = format!("!{h}@{}", self.domain);
+              let mut handed = false;
+              for (fr2, _) in got.values() {
+                for f in fr2 {
+                  if let Message::Event(p) = &f.msg {
+                    if p.channel.as_ref().map(|c| c.to_string()) != Some(chan_full.clone()) {
+                      continue;
+                    }
+                    if p.kind.as_ref() == "MEMBER_LEFT" && p.owner != Some(was_owner) && self.owner.contains_key(&h) {
+                      fails.push(format!("C18: MEMBER_LEFT of {m} on {h} says owner={:?} but the owner was {:?}", p.owner, self.owner.get(&h)));
+                    }
+                    if p.kind.as_ref() == "MEMBER_JOINED" && p.owner == Some(true) {
+                      handed = true;
+                    }
+                  }
+                }
+              }
+              if was_owner && remaining > 0 && env.ev_ok && !handed {
+                fails.push(format!("C04: owner {m} left {h} with {remaining} members remaining but no new owner was announced"));
+              }
+              if !was_owner && handed {
+                fails.push(format!("C04: ownership of {h} changed hands although the owner did not leave"));
               }
             }
           }
